@@ -299,6 +299,42 @@ fn values<W: Write>(r: &mut Rng, cfg: &TermCfg, n: usize, o: &mut Out<W>) {
                     o.fail("C03", f, "enum parse != fold(lexical parse) on the enum formatter's output", &format!("value={raw} text={hs} enum={back} lexfold={lf}"));
                 }
                 o.checked("C15");
+                // every public formatting entry point — the dedicated methods, `FORMAT.format(&x)`, `x.format_to(&FORMAT)`,
+                // on the value and on what it wraps — prints the same text (so all of them round-trip and keep the kind)
+                let text = ser::unhs(hs).unwrap();
+                let ff = efmt(f).unwrap();
+                let mut others: Vec<(&str, String)> = vec![("Narsese::format_to", v.format_to(ff)), ("format(&Narsese)", ff.format(&v))];
+                match &v {
+                    Narsese::Term(t) => {
+                        others.push(("format_term", ff.format_term(t)));
+                        others.push(("format(&Term)", ff.format(t)));
+                        others.push(("Term::format_to", t.format_to(ff)));
+                    }
+                    Narsese::Sentence(s) => {
+                        others.push(("format_sentence", ff.format_sentence(s)));
+                        others.push(("format(&Sentence)", ff.format(s)));
+                        others.push(("Sentence::format_to", s.format_to(ff)));
+                    }
+                    Narsese::Task(k) => {
+                        others.push(("format_task", ff.format_task(k)));
+                        others.push(("format(&Task)", ff.format(k)));
+                        others.push(("Task::format_to", k.format_to(ff)));
+                    }
+                }
+                for (entry, s) in others {
+                    if s != text {
+                        // a different text is only a violation if it does not read back as the value
+                        let b2 = o.run("eparse", f, &ser::hs(&s));
+                        if b2 == format!("ok {canon}") {
+                            o.count("entrypoint.differs_but_reads_back");
+                            continue;
+                        }
+                        let kind_of = |x: &str| x.split(' ').nth(2).unwrap_or("").to_string();
+                        let prop = if kind_of(&b2) != kind_of(&back) { "C15" } else { "C01" };
+                        o.fail(prop, f, &format!("the formatting entry point {entry} prints a text that does not read back as the value (format_narsese does)"),
+                            &format!("value={raw} text={} got={b2}", ser::hs(&s)));
+                    }
+                }
             } else {
                 o.checked("C12");
                 o.fail("C12", f, "formatter panicked", &raw);
@@ -654,6 +690,29 @@ fn lexvalues<W: Write>(r: &mut Rng, cfg: &TermCfg, n: usize, o: &mut Out<W>) {
                 o.checked("C02");
                 if back != format!("ok {ser_v}") {
                     o.fail("C02", f, "lexical parse(format(x)) != x", &format!("value={ser_v} text={hs} got={back}"));
+                }
+                // the trait-based entry points print what `format_narsese` prints
+                {
+                    let text = ser::unhs(hs).unwrap();
+                    let mut others: Vec<(&str, String)> = vec![("Narsese::format_to", v.format_to(lf)), ("format(&Narsese)", lf.format(&v))];
+                    match &v {
+                        lx::Narsese::Term(t) => { others.push(("format_term", lf.format_term(t))); others.push(("format(&Term)", lf.format(t))); }
+                        lx::Narsese::Sentence(s) => { others.push(("format_sentence", lf.format_sentence(s))); others.push(("format(&Sentence)", lf.format(s))); }
+                        lx::Narsese::Task(k) => { others.push(("format_task", lf.format_task(k))); others.push(("format(&Task)", lf.format(k))); }
+                    }
+                    for (entry, s) in others {
+                        if s != text {
+                            let b2 = o.run("lparse", f, &ser::hs(&s));
+                            if b2 == format!("ok {ser_v}") {
+                                o.count("entrypoint.differs_but_reads_back");
+                                continue;
+                            }
+                            let kind_of = |x: &str| x.split(' ').nth(2).unwrap_or("").to_string();
+                            let prop = if kind_of(&b2) != kind_of(&back) { "C15" } else { "C02" };
+                            o.fail(prop, f, &format!("the lexical formatting entry point {entry} prints a text that does not read back as the value"),
+                                &format!("value={ser_v} text={} got={b2}", ser::hs(&s)));
+                        }
+                    }
                 }
                 // C15: whatever else happens, the KIND read back is the kind printed (a task stays a task even with an
                 // empty budget, a sentence a sentence, a term a term)
@@ -1289,6 +1348,20 @@ fn api<W: Write>(r: &mut Rng, cfg: &TermCfg, n: usize, o: &mut Out<W>) {
         if !cap_ok {
             o.fail("C14", "-", "capacity class does not match the component count", &raw);
         }
+        // the capacity PREDICATES: exactly one of atom / unary / binary / multi, each the disjunction of its two
+        // refinements, all of them the answer `get_capacity` gives
+        let cap = t.get_capacity();
+        let preds = [t.is_capacity_atom(), t.is_capacity_unary(), t.is_capacity_binary(), t.is_capacity_multi()];
+        let want = [cap == TermCapacity::Atom, cap == TermCapacity::Unary,
+            matches!(cap, TermCapacity::BinaryVec | TermCapacity::BinarySet), matches!(cap, TermCapacity::Vec | TermCapacity::Set)];
+        if preds != want || preds.iter().filter(|x| **x).count() != 1
+            || t.is_capacity_binary() != (t.is_capacity_binary_vec() ^ t.is_capacity_binary_set())
+            || t.is_capacity_multi() != (t.is_capacity_vec() ^ t.is_capacity_set())
+            || t.is_capacity_binary_vec() != (cap == TermCapacity::BinaryVec) || t.is_capacity_binary_set() != (cap == TermCapacity::BinarySet)
+            || t.is_capacity_vec() != (cap == TermCapacity::Vec) || t.is_capacity_set() != (cap == TermCapacity::Set)
+        {
+            o.fail("C14", "-", "capacity predicates do not partition / do not agree with get_capacity and the arity", &raw);
+        }
         // the capacity class must match the ordered / unordered nature: swapping two DIFFERENT components
         // gives an equal term exactly for the unordered classes
         if let TermCapacity::BinaryVec | TermCapacity::BinarySet = t.get_capacity() {
@@ -1374,7 +1447,8 @@ fn mutators<W: Write>(r: &mut Rng, cfg: &TermCfg, n: usize, o: &mut Out<W>) {
         }
         // push_components
         let k = r.below(4);
-        let cs: Vec<Term> = (0..k).map(|_| { let dd = r.below(2); gen::term(r, cfg, dd) }).collect();
+        // (a placeholder is a term like any other for `push_components`)
+        let cs: Vec<Term> = (0..k).map(|_| if r.chance(1, 6) { Term::Placeholder } else { let dd = r.below(2); gen::term(r, cfg, dd) }).collect();
         let payload = std::iter::once(raw.clone()).chain(cs.iter().map(|c| ser::term(c, Mode::Raw))).collect::<Vec<_>>().join(" ");
         let out = o.run("push", "-", &payload);
         o.checked("C17");
